@@ -101,23 +101,23 @@ AUDIT = {
  "C01": "used destinations (7 slice kinds x 11 prior states), size classes around 2^7..2^17, 32 string/name lengths x 5 positions, widening alphabet x 13 Go kinds, tag-option sets, every sequence <=3 on one Decoder/Encoder, typed maps, EOF-with-last-byte and one-byte sources; call histories re-check every retained result",
  "C02": "package-level Marshal/Unmarshal; encodings alive together (all ordered pairs/triples), used carrier destinations (all ordered pairs), size classes 0..130 and 2^k+-1, name lengths 0..300 (thorough 32767), every carrier tree from EOF-with-last-bytes and one-byte readers, StringifiedMessage (go-mc's own text of every tree) round-tripped at root/field/map/list",
  "C03": "19 destinations of defined (named) types, 10 more entry points (nbt.Unmarshal, direct RawMessage methods, DisallowUnknownFields), 2-call histories on 56 destinations, 53 typed destinations, 6 reader kinds, payloads crossing 256/512/4096/8192",
- "C04": "binary->text through streaming decoders over short-read sources, every string <=2 over 131 units and <=4 over 18 classifier characters at 4 positions, one-/two-hole byte sweeps, every sequence <=3 of 40 operations in one process, embedded positions, lengths to 70000 and nesting to 300/10002",
- "C05": "re-entrant framing writer, 6 source kinds (incl. bytes.Buffer, bufio.Reader, (0,nil) answers, EOF with the last byte), 3 writer kinds, exact-length WriteToBytes windows",
+ "C04": "binary->text through streaming decoders over short-read sources, every string <=2 over 131 units and <=4 over 18 classifier characters at 4 positions, one-/two-hole byte sweeps, every sequence <=3 of 40 operations in one process, embedded positions, lengths to 70000 and nesting to 300/10002; exponent literals without a decimal point (33 literals)",
+ "C05": "re-entrant framing writer, 6 source kinds (incl. bytes.Buffer, bufio.Reader, (0,nil) answers, EOF with the last byte), 3 writer kinds, exact-length WriteToBytes windows; one bufio.Reader carrying many numbers (buffer sizes 16/17/19/23); accepted non-minimal encodings must report the bytes consumed",
  "C06": "process histories (every sequence of <=3/4 field encodes / Marshal / Pack / UnPack on one processor), bytes.Buffer source reused before the value is looked at, 3 writer kinds, 5 source kinds, priors with len<cap<value, every ordered triple of 84 items on one Builder with earlier packets re-checked, 32767-character strings",
  "C07": "process histories (every sequence of <=3/4 Pack/UnPack operations incl. reads failing inside a body, one processor), 5 source kinds, 4 receiver states, kept packets re-compared after later traffic, Accept-built Conn ends, ragged/one-byte pipe delivery, over-maximum complete frames, frames whose packet length crosses 2^7/2^14/2^21 exactly, loopback TCP",
- "C08": "39 extra command-line symbols (all Unicode White_Space, look-alikes, malformed UTF-8), every declared length <=600 (4200) for 19 leaf decoders and every located prefix, nesting depth up to what a 2 MiB frame holds (5 shapes x 10 depths x every NBT-consuming decoder), declared counts of 2^28 and more (32-bit byte-count overflow)",
+ "C08": "39 extra command-line symbols (all Unicode White_Space, look-alikes, malformed UTF-8), every declared length <=600 (4200) for 19 leaf decoders and every located prefix, nesting depth up to what a 2 MiB frame holds (5 shapes x 10 depths x every NBT-consuming decoder), declared counts of 2^28 and more (32-bit byte-count overflow); decode histories on one destination with a differential oracle (what a fresh destination rejects, a used one must reject)",
  "C09": "Conn.ReadPacket/WritePacket and 2-3-frame histories on one Conn, size classes 600/5000 (thorough 70000) on both sides, root-value targets, end-of-stream-delimited operations judged against the contiguous read of the shorter stream, RCON server-side operations and sessions, late-failing writer, chat signatures",
  "C10": "every call length 0..4096, four histories of the caller's IV slice, every source-address residue mod 16, Conn set-up histories (SetThreshold/SetCipher at every packet index and order, WrapConn/Accept ends, (n,io.EOF) delivery), packets to 128 KiB (1 MiB), full duplex at socket-call granularity; CPU-time walk budget",
  "C11": "13 wrong raw lengths per (b,n), WriteTo/Reload/Fix as history operations, full operation menu after ReadFrom+Fix, 8 fragment sizes x EOF style x reader kind, garbage padding bits, ReadFrom+Fix chains on one destination",
  "C12": "6 reader devices, destinations previously wider/narrower, caller palette slices with spare capacity, two live containers (all words of depth 3/4 over 12 operations incl. transfer), Get probes around every Set/ReadFrom",
  "C13": "every sequence <=3/4 of reads into one destination, every sequence <=3/4 of 11 steps on one source, used save.Chunk destinations, two conversions alive together, palette sizes 32..129 and 3..23 sections, plain writer, containers whose palette entry 0 is not registry id 0 grown through every representation",
- "C14": "family env (every history <=3/4 over 17 operations x short-read devices x EOF style x caller retains/scribbles buffers x clock same-second/backwards, real-path Create/Open/Close), every k in 1..255 at sizes k*4096-5..-3",
- "C15": "refused over-limit write followed by further writes, second explicit-state search on an os.File-like device (truncation as a physical operation), one crash+reopen as an operation with continuation, zero-length writes expanded, sector numbers around 256, reopen through region.Open on real files",
+ "C14": "family env (every history <=3/4 over 17 operations x short-read devices x EOF style x caller retains/scribbles buffers x clock same-second/backwards, real-path Create/Open/Close), every k in 1..255 at sizes k*4096-5..-3; state key renders every further field of Region (added bookkeeping splits states); writes-only growth search over four coordinates to depth 6/7",
+ "C15": "refused over-limit write followed by further writes, second explicit-state search on an os.File-like device (truncation as a physical operation), one crash+reopen as an operation with continuation, zero-length writes expanded, sector numbers around 256, reopen through region.Open on real files; a pre-state that already fails the oracle is reported as crash point 0; over-limit writes the region accepts enter the model",
  "C16": "every payload length 0..4087, 8 reader devices, 21-word password alphabet (all ordered pairs), every long-password length, 25-text verbatim menu (all ordered pairs), login/session/request-id histories, 3 more foreign-id kinds",
  "C17": "10 translation keys x 0..5 arguments, 44 codes x placements and all adjacent pairs, 51 string classes x 12 positions, 36 colours, nesting chains to depth 6, constructor path, render-then-encode history, nested shapes, the bare-string / list JSON shapes through the JsonMessage packet carrier",
  "C18": "every name length 0..2048 (16384), every field length 0..600 (4096) + 26^3 boundary triples, operation histories on one PublicKey, VerifySignature call sequences, the real login flows of bot and server with a recording HTTP transport, neighbour forgeries (every key-blob length 0..1700/4200 x 9 neighbours of the signed blob)",
- "C19": "families dispatch-reg, dispatch-extreme, dispatch-ids, history (1-3 rounds of ping/join on one Client and one Server), long (200 packets, bundles of 0/127/128/129/198); checker arguments and every status JSON member judged",
- "C20": "scenarios marshal-pack-unpack-scan (3 thresholds), connections (private socket per thread, CFB8, scheduling point at every socket call), nbt-type-cache-values (omitempty menu, streaming codecs, a struct type new per execution); warm-up execution before every walk; bot-conn scenario; sequential FIFO histories (every sequence of <=16/20 Push/Pull then Close and drain)",
+ "C19": "families dispatch-reg, dispatch-extreme, dispatch-ids, history (1-3 rounds of ping/join on one Client and one Server), long (200 packets, bundles of 0/127/128/129/198); checker arguments and every status JSON member judged; family deadline (join context deadline armed, play after it passed); family framewidth (every play-packet size of two windows so frame lengths cross 127/128 and 16383/16384 one byte at a time, four thresholds)",
+ "C20": "scenarios marshal-pack-unpack-scan (3 thresholds), connections (private socket per thread, CFB8, scheduling point at every socket call), nbt-type-cache-values (omitempty menu, streaming codecs, a struct type new per execution); warm-up execution before every walk; bot-conn scenario; sequential FIFO histories (every sequence of <=16/20 Push/Pull then Close and drain); independent writers of text components; unpack after a failed unpack; player list with refused clients that leave and admitted clients that leave twice",
 }
 
 def main():
